@@ -477,7 +477,7 @@ def _run_unit(unit_chunk, tier):
     for s in solo_steps:
         prod *= max(1, s)
     if kind == "pair":
-        bound = 2 if prod <= (15000 if tier == "quick" else 120000) else 1
+        bound = 2 if prod <= (15000 if tier == "quick" else 80000) else 1
         if tier == "thorough" and prod <= 15000:
             bound = 3
     elif kind == "cold":
